@@ -42,8 +42,6 @@ Definition obs_eqb (a b : obs) : bool :=
 Fixpoint list_eqb {A} (eqb : A -> A -> bool) (a b : list A) : bool :=
   match a, b with [] , [] => true | x :: a', y :: b' => eqb x y && list_eqb eqb a' b' | _, _ => false end.
 
-(* S tracks primary values only: compare modulo the second value of ignore-errors *)
-Definition norm_res (r : mres) : mres := match r with MVal v => MVal (norm v) | _ => r end.
 Definition is_oof (r : mres) : bool := match r with MOOF => true | _ => false end.
 
 (* 0 ok: the observation is what M says, or (a repaired defect) it is what S demands.
